@@ -31,10 +31,29 @@ const allocC = 1 << 20
 func measureDecode(target Codec, data []byte) (outcome string, pos int, alloc uint64) {
 	var m0, m1 runtime.MemStats
 	runtime.ReadMemStats(&m0)
-	outcome, pos = Decode(target, data)
+	// a decoder that does not terminate cannot be stopped from outside: it runs in its own goroutine
+	// and is given up after hangAfter (outcome "hang"; the caller reports and ends the run)
+	type res struct {
+		o string
+		p int
+	}
+	ch := make(chan res, 1)
+	go func() {
+		o, p := Decode(target, data)
+		ch <- res{o, p}
+	}()
+	select {
+	case r := <-ch:
+		outcome, pos = r.o, r.p
+	case <-time.After(hangAfter):
+		return "hang", 0, 0
+	}
 	runtime.ReadMemStats(&m1)
 	return outcome, pos, m1.TotalAlloc - m0.TotalAlloc
 }
+
+// hangAfter: a decode of a few hundred bytes takes microseconds
+const hangAfter = 4 * time.Second
 
 // buildBomb builds large structured inputs.
 func buildBomb(spec string) []byte {
@@ -114,6 +133,49 @@ func (e *Engine) hostileFor(s *Struct, gb []byte, fields []tlv, rng *rand.Rand) 
 			}
 			b := append(append(append([]byte{}, gb[:f.lenBeg]...), lb...), gb[f.lenEnd:]...)
 			add(fmt.Sprintf("length:%d:wire%d", nl, f.ty), b)
+		}
+	}
+	// malformed UNKNOWN members (they are skipped, not read): a tag the schema does not have, placed
+	// where tag order allows, whose embedded length/count is negative or far too large. Small negative
+	// lengths matter: a skip that moves the reader backwards re-reads its own head for ever.
+	{
+		known := map[int]bool{}
+		for _, fd := range s.Fields {
+			known[fd.Tag] = true
+		}
+		prev := -1
+		type gap struct{ at, tag int }
+		var gaps []gap
+		for _, f := range fields {
+			for u := prev + 1; u < f.tag && u < 256; u++ {
+				if !known[u] {
+					gaps = append(gaps, gap{f.beg, u})
+					break
+				}
+			}
+			prev = f.tag
+		}
+		if len(gaps) > 0 {
+			ins := func(kind string, g gap, field []byte) {
+				b := append(append(append([]byte{}, gb[:g.at]...), field...), gb[g.at:]...)
+				add(kind, b)
+			}
+			for k := 0; k < 3; k++ {
+				g := gaps[rng.Intn(len(gaps))]
+				l := int64(-1 - rng.Intn(9))
+				ins(fmt.Sprintf("unknown-simplelist-len:%d", l), g, append(append(wfHead(13, g.tag), wfHead(0, 0)...), wfInt(l, 0)...))
+			}
+			g := gaps[rng.Intn(len(gaps))]
+			ins("unknown-simplelist-len:huge", g, append(append(wfHead(13, g.tag), wfHead(0, 0)...), wfInt(1<<30, 0)...))
+			g = gaps[rng.Intn(len(gaps))]
+			ins("unknown-list-count:negative", g, append(wfHead(9, g.tag), wfInt(int64(-1-rng.Intn(5)), 0)...))
+			g = gaps[rng.Intn(len(gaps))]
+			ins("unknown-map-count:negative", g, append(wfHead(8, g.tag), wfInt(int64(-1-rng.Intn(5)), 0)...))
+			g = gaps[rng.Intn(len(gaps))]
+			ins("unknown-string4-len:huge", g, append(wfHead(7, g.tag), 0xff, 0xff, 0xff, byte(0xf0+rng.Intn(16))))
+			g = gaps[rng.Intn(len(gaps))]
+			inner := append(append(wfHead(13, 3), wfHead(0, 0)...), wfInt(int64(-1-rng.Intn(9)), 0)...)
+			ins("unknown-struct-with-bad-simplelist", g, append(append(wfHead(10, g.tag), inner...), wfHead(11, 0)...))
 		}
 	}
 	// a byte vector sent as a LIST with a negative count / an array with one element too many
@@ -210,6 +272,16 @@ func (e *Engine) RunC05(perType int) {
 		s := e.St[p.ti.Name]
 		tgt := p.ti.New()
 		out, pos, alloc := measureDecode(tgt, p.b)
+		if out == "hang" {
+			small := p.cs
+			if len(small.Hex) > 4000 {
+				small.Hex = small.Hex[:4000]
+			}
+			e.Res.Violate(common.Violation{Signature: "C05:hang:generated-ReadFrom", What: fmt.Sprintf("decoding %d hostile bytes did not return within %v", len(p.b), hangAfter),
+				Case: common.Case{Stream: "schema", Op: small, Impl: out}})
+			// the decoder is still spinning in its goroutine (and still writing to tgt): end the stream
+			break
+		}
 		got := ImplAnswer(out, pos, reflect.ValueOf(tgt).Elem(), s)
 		cls := "err"
 		if out == "ok" {
